@@ -22,6 +22,7 @@ def payloads(tier, seed):
     out = [{"seed": seed, "index": i, "mode": "history"} for i in range(n)]
     out += [{"seed": seed, "index": i, "mode": "hashseed"} for i in range(4 if tier == "quick" else 40)]
     out += [{"seed": seed, "index": i, "mode": "session"} for i in range(20 if tier == "quick" else 300)]
+    out += [{"seed": seed, "index": i, "mode": "isolation"} for i in range(4 if tier == "quick" else 40)]
     return out
 
 def known_payloads():
@@ -164,6 +165,36 @@ def task(W, payload):
         if len(digs) >= 2: out["cases"].append(h + ":hashseed")
         if payload["index"] == 0:
             out["sample"] = {"hashseeds": list(digs), "digests": {k: v[0] for k, v in digs.items()}}
+        return out
+    if mode == "isolation":
+        # process-level history: the target program run in a fresh interpreter vs. run after OTHER models (and itself) were built and run
+        # in the same interpreter with other solvers, explicit solver tolerances, jit, other parameter values
+        other = Gen(r, Opts(max_strats=2, max_flows=5, n_requests=3)).program()
+        tol = r.choice(["1/1000000000", "1/100000", "1/100"])
+        before = [{"ops": other["build"], "runs": [{"op": "run", "params": [[k, v] for k, v in other["params"].items()], "solver": "odeint", "rebuild": True, "rtol": tol, "atol": tol},
+                                                   {"op": "run", "params": [[k, v] for k, v in vary(r, other["params"]).items()], "solver": r.choice(["euler", "rk4"]), "rebuild": True}]},
+                  {"ops": ops, "runs": [{"op": "run", "params": [[k, v] for k, v in vary(r, params).items()], "solver": "odeint", "rebuild": True, "rtol": tol, "atol": tol, "jit": r.random() < 0.5}]}]
+        runs = [{"op": "run", "params": [[k, v] for k, v in params.items()], "solver": s, "rebuild": True} for s in ("odeint", "euler")]
+        digs = {}
+        for label, job in (("alone", {"ops": ops, "runs": runs}), ("after_others", {"ops": ops, "runs": runs, "before": before})):
+            env = dict(os.environ, PYTHONHASHSEED="0", VERIF_NO_REEXEC="1")
+            p = subprocess.run(["/venv/bin/python", os.path.join(os.path.dirname(os.path.abspath(__file__)), "..", "run_prog.py")], input=json.dumps(job),
+                               capture_output=True, text=True, env=env, timeout=900)
+            out["evals"] += 1
+            try:
+                res = json.loads(p.stdout.strip().splitlines()[-1])
+            except Exception:
+                bump(out, "subprocess_infra"); continue
+            if not res["ok"]:
+                bump(out, "program_rejected"); return out
+            digs[label] = res["digests"]
+        if len(digs) == 2:
+            out["cases"].append(h + ":isolation:" + tol)
+            if digs["alone"] != digs["after_others"]:
+                fail(out, "a run differs (bitwise) from the same run in a fresh interpreter after other models were run in the same interpreter with explicit solver tolerances / other solvers",
+                     "c11", payload, digests=digs, program=ops, params=params, before=[b["runs"] for b in before])
+        if payload["index"] == 0:
+            out["sample"] = {"isolation": {"tolerance_used_by_earlier_runs": tol, "digests": digs}}
         return out
     if mode == "session":
         return session_task(W, payload, r, prog, out)
